@@ -426,3 +426,24 @@ struct Distinct {
 };
 
 } // namespace vx
+
+namespace vx {
+// Scratch directory for datadirs: tmpfs when available (fsync is free there), else $VERIF_BUILD/scratch.
+// Also exported as TMPDIR so BasicTestingSetup-derived fixtures create their temp datadirs there.
+inline std::string scratch_dir()
+{
+    static std::string d = [] {
+        std::string s = "/dev/shm";
+        struct stat st;
+        if (stat(s.c_str(), &st) == 0 && access(s.c_str(), W_OK) == 0) s += "/vx-scratch";
+        else {
+            const char* b = getenv("VERIF_BUILD");
+            s = (b ? std::string(b) : ctx().root + "/build") + "/scratch";
+        }
+        mkdir(s.c_str(), 0755);
+        setenv("TMPDIR", s.c_str(), 1);
+        return s;
+    }();
+    return d;
+}
+} // namespace vx
